@@ -78,6 +78,11 @@ class Ex:
     def __pos__(self): return self
     def __abs__(self): return Ex(abs(self.v))
     def __float__(self): return float(self.v)
+    def __int__(self): return int(self.v)
+    def __trunc__(self): return math.trunc(self.v)
+    def __floor__(self): return math.floor(self.v)
+    def __ceil__(self): return math.ceil(self.v)
+    def __round__(self, n=None): return round(self.v, n) if n is not None else round(self.v)
     def __bool__(self): return self.v != 0
     def __hash__(self): return hash(self.v)
 
